@@ -4,7 +4,8 @@ from contracts.writer import FetchHandleStub, WriteAttributes
 from contracts.workspace_io import CloseContract
 from contracts.histories import ApiHistories
 from contracts.concat import ConcatHistories as _CH
-CONTRACTS = list(_H) + [AddSaveConcatenated, OpenResetsRegistries, ParentSet, FetchHandleStub, WriteAttributes, CloseContract, ApiHistories] + list(_ALLOF) + [_CH]
+from contracts.surveys import EMMetadataSet as _EMS, TransmittersSet as _TS, ReceiversSet as _RS
+CONTRACTS = list(_H) + [AddSaveConcatenated, OpenResetsRegistries, ParentSet, FetchHandleStub, WriteAttributes, CloseContract, ApiHistories] + list(_ALLOF) + [_CH] + [_EMS, _TS, _RS]
 
 MANIFEST = {
     "category": "proof",
